@@ -82,6 +82,15 @@ type Config struct {
 	NoInflation     bool              `json:"no_inflation"`
 	NodeOpts        map[string]string `json:"node_opts,omitempty"`
 	IbcVoucher      *IbcVoucherCfg    `json:"ibc_voucher,omitempty"`
+	SharedOracles   bool              `json:"shared_oracles,omitempty"` // the same oracle / bridger / external keys serve every chain (one operator, several bridges)
+}
+
+// OKI: key index of oracle i of chain ci.
+func (c Config) OKI(ci, i int) int {
+	if c.SharedOracles {
+		return OracleKeyIdx(0, i)
+	}
+	return OracleKeyIdx(ci, i)
 }
 
 // IbcVoucherCfg: IBC history that exists at genesis in a bridge world - a voucher received over
@@ -249,7 +258,12 @@ func (w *World) buildGenesis() ([]byte, error) {
 	// ---- accounts & balances
 	var accs authtypes.GenesisAccounts
 	var bals []banktypes.Balance
+	seenAcc := map[string]bool{}
 	addAcc := func(k *Key, amt sdkmath.Int) {
+		if seenAcc[k.Bech()] {
+			return
+		}
+		seenAcc[k.Bech()] = true
 		accs = append(accs, authtypes.NewBaseAccount(k.Acc(), nil, 0, 0))
 		if amt.IsPositive() {
 			bals = append(bals, banktypes.Balance{Address: k.Bech(), Coins: sdk.NewCoins(sdk.NewCoin(fxtypes.DefaultDenom, amt))})
@@ -261,8 +275,15 @@ func (w *World) buildGenesis() ([]byte, error) {
 	for ci, c := range cfg.Chains {
 		// fund twice as many oracle identities as approved, so that governance can add some later
 		for i := 0; i < c.Oracles*2+2; i++ {
-			addAcc(w.Key("oracle", OracleKeyIdx(ci, i)), FX(c.DelegateThresholdFX*c.DelegateMultiple*3))
-			addAcc(w.Key("bridger", OracleKeyIdx(ci, i)), FX(1000))
+			fund := FX(c.DelegateThresholdFX * c.DelegateMultiple * 3)
+			if cfg.SharedOracles { // one key bonds on every chain
+				fund = sdkmath.ZeroInt()
+				for _, c2 := range cfg.Chains {
+					fund = fund.Add(FX(c2.DelegateThresholdFX * c2.DelegateMultiple * 3))
+				}
+			}
+			addAcc(w.Key("oracle", cfg.OKI(ci, i)), fund)
+			addAcc(w.Key("bridger", cfg.OKI(ci, i)), FX(1000))
 		}
 	}
 	addAcc(w.Key("adv", 0), FX(cfg.UserFundFX))
@@ -399,7 +420,7 @@ func (w *World) buildGenesis() ([]byte, error) {
 		ccGen.Params = c.Params()
 		var approved []string
 		for i := 0; i < c.Oracles; i++ {
-			approved = append(approved, w.Key("oracle", OracleKeyIdx(ci, i)).Bech())
+			approved = append(approved, w.Key("oracle", cfg.OKI(ci, i)).Bech())
 		}
 		ccGen.ProposalOracle = crosschaintypes.ProposalOracle{Oracles: approved}
 		gs[c.Name] = cdc.MustMarshalJSON(&ccGen)
